@@ -132,6 +132,13 @@ func (hc *histChecker) onReply(op *Op, connID string) {
 	lm := hc.lm
 	lm.poll()
 	hc.nChecked++
+	if op.Cmd.Tag == "aux" {
+		// an auxiliary command outside the model (SCRIPT LOAD): it must succeed and log nothing
+		if op.Reply.isErr() {
+			w.violate(hc.class+"/reply", "a%02d op%d [%s] failed: %s", op.Client, op.Idx, clipStr(op.Cmd.String(), 100), clipStr(op.Reply.String(), 120))
+		}
+		return
+	}
 	if op.Cmd.Tag == "bad" {
 		// a deliberately invalid command: an error reply, and nothing appended to the log
 		if !op.Reply.isErr() {
